@@ -87,6 +87,18 @@ contract(RUN, 'Runner.can_transpile', 'C06', types={'self': 'Runner', 'module_pa
 		'or recorded_header(self, module_path).module_meta != current_module_meta(self, module_path) or recorded_header(self, module_path).transpiler_meta != current_transpiler_meta(self))',
 	])
 
+contract(RUN, 'Runner.output_filepath', 'C06', types={'self': 'Runner', 'module_path': 'ModulePath', 'return': 'str'},
+	ghost_params={'dirs': 'list[str]'}, ghost_args={'Runner.fetch_output_path.dirs': 'dirs'},
+	rewrites={'self.config.output_language': 'output_language(self.config)', 'module_path.path': 'mp_path(module_path)',
+		"module_path_to_filepath(module_path.path, f'.{extension}')": "mp_to_file(mp_path(module_path), '.' + extension)",
+		'os.path.abspath(output_path)': 'abspath_of(output_path)'},
+	requires=['len(dirs) >= 1', "all(len(dirs[k].split(':')) == 2 for k in range(len(dirs) - 1))"],
+	raises={},
+	ensures=[
+		# the file whose header decides regeneration is named by an absolute path: the one this run writes, not whatever a loader search path finds first
+		'is_abs(result)',
+		"result == abspath_of(out_path(dirs, mp_to_file(mp_path(module_path), '.' + (output_language(self.config).split(':')[1] if len(output_language(self.config).split(':')) == 2 else output_language(self.config).split(':')[0])), 0))"])
+
 contract(RUN, 'Runner.fetch_output_path', 'C06', types={'self': 'Runner'},
 	ghost_params={'dirs': 'list[str]'},
 	rewrites={
@@ -208,3 +220,17 @@ def known_stale_dependant(kf):
 	from twins import pipeline
 	ok, why = pipeline.stale_after_dependency_edit()
 	return ok
+
+
+def extra_checks(tier, seed, active_known):
+	from pyvc.driver import Extra
+	from twins import pipeline
+	runs, fails = pipeline.own_edit_regenerates()
+	x = Extra(name='after an edit of its own source a module is regenerated by a non-forced run (equal to a forced run), also next to a module whose path extends its own', kind='bounded', ok=not fails, cases=runs,
+		bound='3 two-module projects (src/net.py + src/network/client.py, util.py + util_ext.py, a.py + b.py): run, edit, run, run -f on the real CLI', detail=f'{len(fails)} failing histories',
+		samples=[{'history': ['run', 'edit src/net.py', 'run', 'run -f'], 'verdict': 'non-forced == forced'}])
+	x.distinct = runs
+	if fails:
+		x.violation = {'what': fails[0]['what'], 'function': 'rogw/tranp/bin/transpile.py:Runner.can_transpile / rogw/tranp/providers/module.py:module_meta_factory', 'inputs': fails[0], 'clause': 'non-forced run after an own-source edit == forced run'}
+		x.finding_key = 'pipeline|own-edit'
+	return [x]
